@@ -832,11 +832,103 @@ func partC(rep *kit.Report) {
 		}
 	}
 	os.Unsetenv("V")
+	// Two lines of the same directive, each written inline, in a snippet defined above the site, or in an imported file (9
+	// placements), read back both ways setup code walks a directive's lines: `for Next() { RemainingArgs() }` and
+	// `for NextLine() { RemainingArgs() }` (header and push do the latter). Each line keeps its own arguments in every placement.
+	imp := filepath.Join(dir, "c2-imported")
+	places := []string{"inline", "snippet", "file"}
+	var short [][]arg2
+	for _, a := range []arg2{{"a", "a"}, {"\"q r\"", "q r"}, {"\"m\nl\"", "m\nl"}} {
+		short = append(short, []arg2{a})
+		for _, b := range []arg2{{"b", "b"}, {"\"m\nl\"", "m\nl"}} {
+			short = append(short, []arg2{a, b})
+		}
+	}
+	for _, p1 := range places {
+		for _, p2 := range places {
+			for _, l1 := range short {
+				for _, l2 := range short {
+					line := func(l []arg2) (src string, vals []string) {
+						src, vals = "d1", []string{"d1"}
+						for _, a := range l {
+							src += " " + a.src
+							vals = append(vals, a.val)
+						}
+						return
+					}
+					s1, v1 := line(l1)
+					s2, v2 := line(l2)
+					head, body, file := "", "", ""
+					put := func(place, src, snip string) {
+						switch place {
+						case "inline":
+							body += "\t" + src + "\n"
+						case "snippet":
+							head += "(" + snip + ") {\n\t" + src + "\n}\n"
+							body += "\timport " + snip + "\n"
+						case "file":
+							file += src + "\n"
+							body += "\timport " + imp + "\n"
+						}
+					}
+					if p1 == "file" && p2 == "file" {
+						continue // (one file holding both lines is the inline case again)
+					}
+					put(p1, s1, "s1")
+					h1 := head
+					head = ""
+					put(p2, s2, "s2")
+					// (snippets are defined in the order of use; when both lines are snippets, l1's length decides which is defined first)
+					if p1 == "snippet" && p2 == "snippet" && len(l1) == 2 {
+						head = head + h1
+					} else {
+						head = h1 + head
+					}
+					os.WriteFile(imp, []byte(file), 0o644)
+					text := head + "host {\n" + body + "}\n"
+					res := parseGuarded(rep, name, text)
+					rep.Eval(1)
+					want := fmt.Sprintf("%q", [][]string{v1, v2})
+					got := map[string]string{}
+					switch {
+					case res.panicV != nil:
+						got["parse"] = fmt.Sprintf("panic: %v", res.panicV)
+					case res.err != nil:
+						got["parse"] = "error: " + res.err.Error()
+					case len(res.blocks) != 1:
+						got["parse"] = fmt.Sprintf("%d blocks", len(res.blocks))
+					default:
+						d := casketfile.NewDispenserTokens(name, res.blocks[0].Tokens["d1"])
+						var seen [][]string
+						for d.Next() {
+							seen = append(seen, append([]string{d.Val()}, d.RemainingArgs()...))
+						}
+						got["Next"] = fmt.Sprintf("%q", seen)
+						d = casketfile.NewDispenserTokens(name, res.blocks[0].Tokens["d1"])
+						seen = nil
+						for d.NextLine() {
+							seen = append(seen, append([]string{d.Val()}, d.RemainingArgs()...))
+						}
+						got["NextLine"] = fmt.Sprintf("%q", seen)
+					}
+					for how, g := range got {
+						if g != want {
+							rep.Violation("C10/dispenser-view/lines-of-one-directive-differ/"+how+"/"+p1+"+"+p2, "two lines of one directive, the first written "+p1+" and the second "+p2+": walking them with "+how+" does not give each line its own arguments", rtCase{Main: text, Files: map[string]string{imp: file}, Want: want, Got: g})
+						}
+					}
+					rep.Class("dispenser-view/two-lines/" + p1 + "+" + p2)
+				}
+			}
+		}
+	}
+	os.Remove(imp)
 }
+
+type arg2 struct{ src, val string }
 
 func main() {
 	rep := kit.NewReport("C10", "exploration",
-		"(a) every string of <=6 (thorough 7) symbols over a 14-symbol macro-alphabet and every sequence of <=5 (6) lines over a 14-line alphabet with import targets that are acyclic, self-importing and mutually importing, x 3 environments (and, one symbol shorter, 2 more: a value naming itself, a value with a line break), each parsed under a watchdog; (b) every AST of a menu (~1k) x 288 layouts x every single-directive split into an import file or snippet x 2 environments, printed, parsed and compared; (c) every pair of directive lines of <=3 arguments over 4 argument shapes under 2 environment values, read back through a Dispenser as the setup code of a directive does; distinct_nontrivial = outcome classes (error kinds, block counts, round-trip shapes)")
+		"(a) every string of <=6 (thorough 7) symbols over a 14-symbol macro-alphabet and every sequence of <=5 (6) lines over a 14-line alphabet with import targets that are acyclic, self-importing and mutually importing, x 3 environments (and, one symbol shorter, 2 more: a value naming itself, a value with a line break), each parsed under a watchdog; (b) every AST of a menu (~1k) x 288 layouts x every single-directive split into an import file or snippet x 2 environments, printed, parsed and compared; (c) every pair of directive lines of <=3 arguments over 4 argument shapes under 2 environment values, read back through a Dispenser as the setup code of a directive does, and two lines of one directive placed inline, in a snippet or in an imported file (8 placements) walked with Next and with NextLine; distinct_nontrivial = outcome classes (error kinds, block counts, round-trip shapes)")
 	if !rep.IsWorker() {
 		rep.Assume("environment values never contain placeholder syntax; glob imports limited to one pattern; import targets live next to the Casketfile")
 		rep.RunWorkers(16)
